@@ -466,6 +466,111 @@ theorem downstream_types_permissive (I : TypeOracle) (hI : MonotoneOracle I) (se
         exact mkCtxI_fresh I ins2 hasSub o ho
     · exact Or.inl hb
 
+
+/-! ### the downstream half lifted to programs of any length (mini-round) -/
+
+/-- How the consumers of a node see its outputs: the Var under the consumer's input name, with the value
+    (if any) type inference may read. -/
+def toInfo (name : String) (o : OutVar) : InInfo :=
+  ⟨⟨name, some o.key, o.type, o.value.isSome⟩, o.value.map (·.value)⟩
+
+def zipInfo (names : List String) (res : List (OutVar × Bool)) : List InInfo :=
+  (names.zip res).map fun p => toInfo p.1 p.2.1
+
+theorem pointwise_insim_refl : ∀ l : List InInfo, Pointwise InSim l l
+  | [] => .nil
+  | _ :: l => .cons (Or.inl rfl) (pointwise_insim_refl l)
+
+theorem zipInfo_insim : ∀ (names : List String) (l2 l1 : List (OutVar × Bool)),
+    Pointwise (fun (p2 p1 : String × Option Ty) => p2.1 = p1.1 ∧ permits p2.2 p1.2)
+      (l2.map fun ow => (ow.1.key, ow.1.type)) (l1.map fun ow => (ow.1.key, ow.1.type)) →
+    (∀ ow ∈ l2, ow.1.value = none) → Pointwise InSim (zipInfo names l2) (zipInfo names l1)
+  | [], _, _, _, _ => by simp [zipInfo]; exact .nil
+  | _ :: _, [], [], _, _ => by simp [zipInfo]; exact .nil
+  | _ :: _, [], _ :: _, h, _ => by simp only [List.map_nil, List.map_cons] at h; cases h
+  | _ :: _, _ :: _, [], h, _ => by simp only [List.map_nil, List.map_cons] at h; cases h
+  | n :: names, a2 :: l2, a1 :: l1, h, hv => by
+    simp only [List.map_cons] at h
+    cases h with
+    | cons hab hrest =>
+      have ih := zipInfo_insim names l2 l1 hrest (fun ow how => hv ow (List.mem_cons_of_mem _ how))
+      simp only [zipInfo, List.zip_cons_cons, List.map_cons]
+      refine .cons (Or.inr ⟨?_, rfl, hab.2⟩) ih
+      simp [toInfo, hv a2 (List.mem_cons_self ..)]
+
+/-- **outputs_insim.** The conclusion of `downstream_types_permissive` IS its premise one node further: seen by
+    any consumer (under any input names), the outputs of the faulty run are `InSim` to the fault-free ones. -/
+theorem outputs_insim (names : List String) (res2 res1 : List (OutVar × Bool))
+    (ht : Pointwise (fun (p2 p1 : String × Option Ty) => p2.1 = p1.1 ∧ permits p2.2 p1.2)
+      (res2.map fun ow => (ow.1.key, ow.1.type)) (res1.map fun ow => (ow.1.key, ow.1.type)))
+    (hv : (∀ ow ∈ res2, ow.1.value = none) ∨ res2 = res1) :
+    Pointwise InSim (zipInfo names res2) (zipInfo names res1) := by
+  rcases hv with hv | rfl
+  · exact zipInfo_insim names res2 res1 ht hv
+  · exact pointwise_insim_refl _
+
+/-- One call of a pipeline: its type-inference engine, kind, consumer-side input names for its outputs, and the
+    evaluator's behaviour in the fault-free run (`b1`) and in the faulty run (`b2`). -/
+structure ChainStep where
+  I : TypeOracle
+  sel : BackendSel
+  k : Kind
+  hasSub : Bool
+  names : List String
+  b1 : Backend
+  b2 : Backend
+
+/-- Run a pipeline (every node consumes the outputs of the previous one) from given inputs; `none` if a
+    constructor raises. -/
+def runChain (pick : ChainStep → Backend) : List InInfo → List ChainStep → Option (List InInfo)
+  | ins, [] => some ins
+  | ins, s :: rest =>
+    match construct Variant.fixed s.sel s.k (mkCtxI s.I ins s.hasSub) (pick s) with
+    | .ok res => runChain pick (zipInfo s.names res) rest
+    | .error _ => none
+
+/-- **chain_types_permissive** (the downstream half of "types stay sound", for pipelines of ANY length and faults
+    at ANY number of calls). If every type-inference engine along the pipeline is monotone (the explicit
+    third-party hypothesis) and at every call the evaluator either behaves as in the fault-free run or raises an
+    `Exception` (faults only drop values), then at the end - and, the statement being closed under prefixes, at
+    every stage - each Var of the faulty run is identical to the fault-free one or has lost its value and
+    reports a type that permits the fault-free type. -/
+theorem chain_types_permissive : ∀ (steps : List ChainStep) (ins2 ins1 out2 out1 : List InInfo),
+    (∀ s ∈ steps, MonotoneOracle s.I) →
+    (∀ s ∈ steps, s.b2 = s.b1 ∨ ∃ e, s.b2 = .raise e ∧ e.isException = true) →
+    Pointwise InSim ins2 ins1 →
+    runChain (·.b1) ins1 steps = some out1 → runChain (·.b2) ins2 steps = some out2 →
+    Pointwise InSim out2 out1
+  | [], ins2, ins1, out2, out1, _, _, hsim, h1, h2 => by
+    simp only [runChain, Option.some.injEq] at h1 h2
+    subst h1; subst h2; exact hsim
+  | s :: rest, ins2, ins1, out2, out1, hm, hb, hsim, h1, h2 => by
+    simp only [runChain] at h1 h2
+    cases hc1 : construct Variant.fixed s.sel s.k (mkCtxI s.I ins1 s.hasSub) s.b1 with
+    | error e => simp [hc1] at h1
+    | ok res1 =>
+      cases hc2 : construct Variant.fixed s.sel s.k (mkCtxI s.I ins2 s.hasSub) s.b2 with
+      | error e => simp [hc2] at h2
+      | ok res2 =>
+        simp only [hc1] at h1
+        simp only [hc2] at h2
+        have hfault : s.b2 = s.b1 ∨ ∀ ow ∈ res2, ow.1.value = none := by
+          rcases hb s (List.mem_cons_self ..) with h | ⟨e, he, hex⟩
+          · exact Or.inl h
+          · right
+            rw [he, raise_is_off s.sel s.k _ e hex (mkCtxI_fresh s.I ins2 s.hasSub)] at hc2
+            have := Except.ok.inj hc2
+            subst this
+            intro ow how
+            simp only [List.mem_map] at how
+            obtain ⟨o, ho, rfl⟩ := how
+            exact mkCtxI_fresh s.I ins2 s.hasSub o ho
+        have hstep := downstream_types_permissive s.I (hm s (List.mem_cons_self ..)) s.sel s.k s.hasSub
+          ins2 ins1 hsim s.b1 s.b2 res1 res2 hc1 hc2 hfault
+        exact chain_types_permissive rest _ _ out2 out1
+          (fun t ht => hm t (List.mem_cons_of_mem _ ht)) (fun t ht => hb t (List.mem_cons_of_mem _ ht))
+          (outputs_insim s.names res2 res1 hstep.1 hstep.2) h1 h2
+
 /-- The hypothesis is satisfiable, e.g. by an engine that passes the first input's type through
     (Identity-like): less known about the input, less claimed about the output. -/
 example : MonotoneOracle (fun ins => [("output", (ins.head?.bind fun a => a.v.type))]) := by
@@ -512,6 +617,20 @@ def faultyProgram : List Step :=
     .standard .onnxruntime [⟨1, 0⟩] ["input"] [("output", some tI64x2)] Traits.plain (.ret ["output"] [.none]) (fun _ _ => none) ]
 
 example : (run Variant.fixed [] faultyProgram).length = 3 := by decide
+
+/-- non-vacuity of `chain_types_permissive`: a two-call pipeline of Identity-like nodes fed with a valued
+    `int64[2]` Var. Fault-free, the value arrives at the end; with the first evaluator call raising, both runs
+    construct, the faulty one ends with a valueless Var of the same type (so `InSim` holds by its second disjunct). -/
+def idOracle : TypeOracle := fun ins => [("output", (ins.head?.bind fun a => a.v.type))]
+def chainDemo (b2 : Backend) : List ChainStep :=
+  [ ⟨idOracle, .reference, .standard, false, ["input"], .ret ["output"] [.arr .i64 [2] 3], b2⟩,
+    ⟨idOracle, .onnxruntime, .standard, false, ["input"], .ret ["output"] [.arr .i64 [2] 3], .ret ["output"] [.arr .i64 [2] 3]⟩ ]
+def chainIn : List InInfo := [⟨⟨"input", some "output", some tI64x2, true⟩, some (.arr .i64 [2] 3)⟩]
+
+example : (runChain (·.b1) chainIn (chainDemo (.raise (.backend true 0)))).map (·.map fun a => (a.v.hasValue, a.v.type == some tI64x2))
+      = some [(true, true)] ∧
+    (runChain (·.b2) chainIn (chainDemo (.raise (.backend true 0)))).map (·.map fun a => (a.v.hasValue, a.v.type == some tI64x2))
+      = some [(false, true)] := by decide
 
 /-! ### the pinned tree violates the same statements -/
 
